@@ -13,7 +13,7 @@ func init() { register("C03", propC03) }
 func propC03() *Property {
 	return &Property{
 		ID:      "C03",
-		Decides: "the shape of the close protocol on every path. Sender (closeWithError, explored path-sensitively over the atoms first-call / err==nil / session live / Insert succeeded / close request transmitted): R03.1 on a graceful close (err == nil) of a live session no path reaches the discard of the send state (sendQueue.DeleteAll, sendBuf.DeleteAll) without first queueing the close request behind the pending data - whatever the session state; the queued segment is the close request itself, inserted under oLock; R03.2 after a successful Insert the send state is discarded only once lastSend has reached the close request's sequence number or the bounded wait is exhausted, and the close request is written directly only when it was not transmitted by the output loop; R03.3 on TCP the output loop and every direct transmission hold oLock, so the close request follows all queued data on the wire (shared with R01.4); R03.4 the send state is discarded nowhere else. Receiver: R03.5 a close request that arrives on the datagram transport ahead of segments not yet delivered (its sequence number is greater than nextRecv) marks the session incomplete before the session is closed, on every path; R03.6 Session.Read reports io.EOF only when nothing is left to hand out (receive queue empty, nothing copied, no kept tail) and the session is not marked incomplete - otherwise it returns data or io.ErrUnexpectedEOF.",
+		Decides: "the shape of the close protocol on every path. Sender (closeWithError, explored path-sensitively over the atoms first-call / err==nil / session live / Insert succeeded / close request transmitted): R03.1 on a graceful close (err == nil) of a live session no path reaches the discard of the send state (sendQueue.DeleteAll, sendBuf.DeleteAll) without first queueing the close request behind the pending data - whatever the session state; the queued segment is the close request itself, inserted under oLock; R03.2 after a successful Insert the send state is discarded only once lastSend has reached the close request's sequence number or the bounded wait is exhausted, and the close request is written directly only when it was not transmitted by the output loop; R03.3 on TCP the output loop and every direct transmission hold oLock, so the close request follows all queued data on the wire (shared with R01.4); R03.4 the send state is discarded nowhere else. Receiver: R03.5 a close request that arrives on the datagram transport ahead of segments not yet delivered (its sequence number is greater than nextRecv) marks the session incomplete before the session is closed, on every path; R03.6 Session.Read reports io.EOF only when nothing is left to hand out (receive queue empty, nothing copied, no kept tail) and the session is not marked incomplete - otherwise it returns data or io.ErrUnexpectedEOF. R03.7 the close request the datagram underlay sends on behalf of a session it no longer knows carries a sequence number strictly ahead of the peer's unAckSeq, so the receiver's gap test marks the session incomplete (finding F15, repaired in /repo d21d74d).",
 		NotDecided: "what the peer application actually read (needs execution); the stream transport's receive side beyond ordering by the byte stream (a TCP close request cannot overtake data, by R03.3 and TCP itself); the case sendQueue.Insert fails because the queue is full; the random choice Read makes when closedChan and inputErr are both ready.",
 		Rules: []Rule{
 			{ID: "R03.1", Floor: 4, Text: "graceful close queues the close request behind pending data before any discard", Run: r03_1},
@@ -21,6 +21,7 @@ func propC03() *Property {
 			{ID: "R03.3", Floor: 4, Text: "every transmission of the stream transport holds oLock (shared with R01.4)", Run: r01_4},
 			{ID: "R03.4", Floor: 2, Text: "sendQueue.DeleteAll / sendBuf.DeleteAll only in closeWithError", Run: r03_4},
 			{ID: "R03.5", Floor: 3, Text: "a close request ahead of undelivered segments marks the session incomplete before closing it", Run: r03_5},
+			{ID: "R03.7", Floor: 1, Text: "a close request made by the datagram underlay for an unknown session cannot pass for a clean close (seq = unAckSeq + k, k >= 1)", Run: r03_7},
 			{ID: "R03.6", Floor: 2, Text: "Read returns io.EOF only with nothing left and the session not marked incomplete", Run: r03_6},
 		},
 	}
@@ -541,4 +542,102 @@ func r03_6(c *RC) {
 	}
 	// the kept tail is empty whenever nothing was copied: covered by R01.7 (older-bytes-first)
 	c.OK("eof-after-tail", fn.Pos(), "a non-empty unreadBuf is copied before the queue is consulted (R01.7), so 'nothing copied' implies no kept tail")
+}
+
+// r03_7: the datagram underlay answers traffic for a session it no longer
+// knows with a close request of its own making. That request says nothing
+// about whether the peer has received everything, so it must not be able to
+// pass for a clean close: its sequence number is strictly ahead of the
+// peer's own unAckSeq (the peer's nextRecv), which makes the receiver's gap
+// test (R03.5) fire. With seq == unAckSeq the loss of the tail data together
+// with the session's own close request ends in a clean EOF after a prefix
+// (finding F15).
+func r03_7(c *RC) {
+	p := c.P
+	fn := p.Fn(protoPkg, "PacketUnderlay.RunEventLoop")
+	seqF := p.Field(protoPkg, "sessionStruct", "seq")
+	ua := p.Field(protoPkg, "dataAckStruct", "unAckSeq")
+	if fn == nil || seqF == nil || ua == nil {
+		c.Anchor("PacketUnderlay.RunEventLoop / sessionStruct.seq / dataAckStruct.unAckSeq")
+		return
+	}
+	crq, _ := constOf(p, protoPkg, "closeSessionRequest")
+	n := 0
+	instrs(fn, func(_ *ssa.BasicBlock, _ int, in ssa.Instruction) {
+		st, ok := in.(*ssa.Store)
+		if !ok {
+			return
+		}
+		f, base := fieldOfAddr(st.Addr)
+		if !sameField(f, seqF) {
+			return
+		}
+		// the literal's protocol
+		al, ok := base.(*ssa.Alloc)
+		if !ok {
+			return
+		}
+		proto := int64(-1)
+		for _, r := range *al.Referrers() {
+			fa, ok := r.(*ssa.FieldAddr)
+			if !ok {
+				continue
+			}
+			if g, _ := fieldOfAddr(fa); g == nil || g.Name() != "baseStruct" {
+				continue
+			}
+			for _, r2 := range *fa.Referrers() {
+				switch y := r2.(type) {
+				case *ssa.Store:
+					if ld, ok := y.Val.(*ssa.UnOp); ok {
+						if bl, ok := ld.X.(*ssa.Alloc); ok {
+							for _, r3 := range *bl.Referrers() {
+								if pf, ok := r3.(*ssa.FieldAddr); ok {
+									for _, r4 := range *pf.Referrers() {
+										if s4, ok := r4.(*ssa.Store); ok {
+											if k, ok := constInt(s4.Val); ok {
+												proto = k
+											}
+										}
+									}
+								}
+							}
+						}
+					}
+				case *ssa.FieldAddr:
+					for _, r4 := range *y.Referrers() {
+						if s4, ok := r4.(*ssa.Store); ok {
+							if k, ok := constInt(s4.Val); ok {
+								proto = k
+							}
+						}
+					}
+				}
+			}
+		}
+		if proto != crq {
+			return
+		}
+		n++
+		key := "synthetic-close-is-not-clean"
+		ahead := false
+		if bo, ok := st.Val.(*ssa.BinOp); ok && bo.Op == token.ADD {
+			for _, pair := range [][2]ssa.Value{{bo.X, bo.Y}, {bo.Y, bo.X}} {
+				if k, isK := constInt(pair[1]); isK && k >= 1 && sameField(fieldOrigin(pair[0]), ua) {
+					ahead = true
+				}
+			}
+		}
+		switch {
+		case ahead:
+			c.OKH(key, in.Pos(), "the close request made for an unknown session carries unAckSeq + k (k >= 1): the peer's gap test fires")
+		case sameField(fieldOrigin(st.Val), ua):
+			c.Bad(key, in.Pos(), "the close request the datagram underlay makes for a session it no longer knows carries the peer's own unAckSeq as its sequence number: the peer cannot tell it from a clean close, so losing the tail of the data together with the session's own close request yields a clean end-of-stream after a strict prefix")
+		default:
+			c.Bad(key, in.Pos(), "the close request made for an unknown session has sequence number %s, which is not derived from the peer's unAckSeq + k (k >= 1)", describe(st.Val))
+		}
+	})
+	if n == 0 {
+		c.OK("synthetic-close-is-not-clean", fn.Pos(), "the datagram event loop builds no close request of its own")
+	}
 }
